@@ -146,6 +146,20 @@ def taint(M, rec, rng, desc, pars, st):
         if opts:
             rec.count("taint_functions_with_positivity_options")
         case = CC.CompileCase(M, rng, desc, pars, st, (), opts, own_symbols=(rng.random() < 0.5))
+        if case.shared_inner_mapping is not None:
+            # several links were handed one and the same (empty) inner mapping: each must own its variables,
+            # otherwise one link's next state is a function of another link's state
+            rec.count("cases_with_one_inner_mapping_shared_by_several_links")
+            ls = list(case.built.links.items())
+            for i_ in range(len(ls)):
+                for j_ in range(i_ + 1, len(ls)):
+                    for nm_ in ("rho", "v"):
+                        a_, b_ = ls[i_][1].states[nm_], ls[j_][1].states[nm_]
+                        if a_ is b_ or (a_.shape == b_.shape and cs.is_equal(a_, b_)):
+                            rec.violation(f"{PROP}:taint({st}): two links share their state variables after a step (one inner init_conditions mapping handed to both)",
+                                          {"desc": desc, "links": [ls[i_][0], ls[j_][0]], "variable": nm_,
+                                           "written_into_the_shared_mapping": case.shared_inner_mapping_written})
+                            return None
         F = case.compile(0, False)
     except Exception as e:
         rec.count("compile_failed")
